@@ -1784,6 +1784,43 @@ def drop_collinear(pts):
     return out
 
 
+def seg_dist(p, a, b):
+    ax, ay, bx, by = a[0], a[1], b[0], b[1]
+    dx, dy = bx - ax, by - ay
+    L2 = dx * dx + dy * dy
+    if L2 == 0:
+        return math.hypot(p[0] - ax, p[1] - ay)
+    t = max(0.0, min(1.0, ((p[0] - ax) * dx + (p[1] - ay) * dy) / L2))
+    return math.hypot(p[0] - (ax + t * dx), p[1] - (ay + t * dy))
+
+
+def sampled_polyline_equal(file_pts, model_pts):
+    """A RobustPath is written as its SAMPLED centre line rounded to the grid: the file polyline must have the model's end
+    points exactly, contain every model corner (within 1 grid step, in order) and every other file vertex must be the rounding of
+    a point on the model segment it lies on (distance <= 0.71 grid steps).  None if equal, else a reason."""
+    M = drop_collinear(list(model_pts))
+    F = list(file_pts)
+    if not F or F[0] != M[0] or F[-1] != M[-1]:
+        return "end points differ"
+    j = 0
+    for k in range(len(M) - 1):
+        a, b = M[k], M[k + 1]
+        last = k == len(M) - 2
+        while True:
+            j += 1
+            if j >= len(F):
+                return "model corner %s not found in the file polyline" % (b,)
+            q = F[j]
+            if (last and j == len(F) - 1) or (not last and max(abs(q[0] - b[0]), abs(q[1] - b[1])) <= 1 and seg_dist(q, a, b) <= 1.0 and
+                                             (j + 1 >= len(F) or seg_dist(F[j + 1], a, b) > 0.71 or F[j + 1] == q)):
+                break
+            if seg_dist(q, a, b) > 0.71:
+                return "file vertex %s is %.2f grid steps off the model segment %s-%s" % (q, seg_dist(q, a, b), a, b)
+    if j != len(F) - 1:
+        return "file polyline continues after the last model vertex"
+    return None
+
+
 def props_from_dump(pl):
     """-> [(name bytes, [(t, v)])] comparable with props_decoded"""
     return props_got(pl)
@@ -1907,8 +1944,10 @@ def compare_decoded(model, layout, tol_grid):
                         bad("extension", "file extensions %s, library %s" % (d["ext"], w["ext"]))
                     a, b = d["points"], w["points"]
                     if w["src"] == "robustpath":
-                        a, b = drop_collinear(a), drop_collinear(b)
-                    if a != b:
+                        why = sampled_polyline_equal(a, b)
+                        if why:
+                            bad("points", "file centre line %s, library %s: %s" % (short(a), short(drop_collinear(b)), why))
+                    elif a != b:
                         bad("points", "file centre line %s, library %s" % (short(a), short(b)))
                 elif gname == "texts":
                     if d["text"] != w["text"]:
